@@ -46,6 +46,10 @@ pub enum Case {
     Transport { commands: Vec<String>, split: usize, sep_arg: bool, sep_stdin: bool, decorate: u8 },
     /// `print` without an argument means the PC (help.txt: default: PC)
     PrintDefault,
+    /// a script on standard input in which one line contains bytes that are not UTF-8: that line
+    /// is a line like any other - rejected, no effect, no panic - and the lines around it keep
+    /// their meaning (`place`: where in the line the bytes go, `raw`: which bytes)
+    BadBytes { before: Vec<String>, line: String, place: u8, raw: u8, after: Vec<String> },
 }
 
 const SENT_R1: u16 = 0x5A5A;
@@ -421,6 +425,71 @@ fn judge_transport(commands: &[String], split: usize, sep_arg: bool, sep_stdin: 
     obs
 }
 
+const RAW_BYTES: &[&[u8]] = &[&[0xFF], &[0x80], &[0xC3], &[0xE2, 0x82], &[0xF0, 0x9F, 0x98], &[0xC0, 0x80], &[0xED, 0xA0, 0x80], &[0xE9, b' ', b'x'], &[0xFE, 0xFF], &[0xF8, 0x88, 0x80, 0x80, 0x80]];
+
+/// The script with a line that is not UTF-8 against the same script with an invalid (but textual)
+/// line in its place: same final state, same program output, the session goes on, no panic.
+fn judge_bad_bytes(before: &[String], line: &str, place: u8, raw: u8, after: &[String]) -> Obs {
+    let mut obs = Obs::default();
+    obs.key = hash_of(&("bad-bytes", before, line, place, raw, after));
+    obs.nontrivial = true;
+    obs.label("line-that-is-not-utf8");
+    let bytes = RAW_BYTES[raw as usize % RAW_BYTES.len()];
+    // the bad line: the raw bytes at the start, in the middle (a character boundary) or at the end
+    let mut bad: Vec<u8> = Vec::new();
+    let cut = match place % 3 {
+        0 => 0,
+        1 => (0..=line.len() / 2).rev().find(|i| line.is_char_boundary(*i)).unwrap_or(0),
+        _ => line.len(),
+    };
+    bad.extend(&line.as_bytes()[..cut]);
+    bad.extend(bytes);
+    bad.extend(&line.as_bytes()[cut..]);
+    let mut stdin: Vec<u8> = Vec::new();
+    for c in before {
+        stdin.extend(c.as_bytes());
+        stdin.push(b'\n');
+    }
+    stdin.extend(&bad);
+    stdin.push(b'\n');
+    for c in after {
+        stdin.extend(c.as_bytes());
+        stdin.push(b'\n');
+    }
+    stdin.extend(b"move r6 x6666\nexit\n");
+    let mut reference_script: Vec<String> = before.to_vec();
+    reference_script.push("bogus-command".into());
+    reference_script.extend(after.iter().cloned());
+    reference_script.push("move r6 x6666".into());
+    reference_script.push("exit".into());
+    obs.show = Some(format!("stdin {:?}", String::from_utf8_lossy(&stdin)));
+    let reference = run(NAME_PROGRAM, Some(reference_script.join("\n")), &[], 4000);
+    let variant = run(NAME_PROGRAM, None, &stdin, 4000);
+    let (Some(r), Some(v)) = (&reference.outcome, &variant.outcome) else { return Obs::fail("C14:session-failed", "no outcome") };
+    if let Stop::Panic(m, l) = &v.stop {
+        if m.contains("RTI") {
+            obs.excluded = Some("rti");
+            return obs;
+        }
+        obs.set_fail(format!("C14:{}", super::c01::panic_sig(m, l)), format!("a line of bytes that are not UTF-8 makes the reader panic: {m} at {l}\nstdin {:?}", String::from_utf8_lossy(&stdin)));
+        return obs;
+    }
+    if matches!(r.stop, Stop::Panic(..)) {
+        obs.excluded = Some("reference session panics (rti)");
+        return obs;
+    }
+    // an echo line may legitimately print the replacement text; everything else about the machine
+    // and the program must agree
+    if r.stop != v.stop || r.stdout != v.stdout || r.fin != v.fin {
+        let what = if r.stop != v.stop { "how the session ends" } else if r.stdout != v.stdout { "program output" } else { "final machine state" };
+        obs.set_fail(
+            "C14:non-utf8-line-changes-meaning",
+            format!("{what} differs from the same script with an invalid textual line in its place\nstdin {:?}\n--- got {:?} ---\n{}\n--- reference {:?} ---\n{}", String::from_utf8_lossy(&stdin), v.stop, clip(&String::from_utf8_lossy(&v.stderr)), r.stop, clip(&String::from_utf8_lossy(&r.stderr))),
+        );
+    }
+    obs
+}
+
 /// The transport relation through the real binary: `--command` is parsed by clap, stdin is a pipe.
 fn judge_transport_cli(commands: &[String], split: usize, sep_arg: bool, sep_stdin: bool) -> Obs {
     let mut obs = Obs::default();
@@ -471,6 +540,7 @@ pub fn judge_case(c: &Case) -> Obs {
         }
         Case::Name { entry, variant, is_candidate, args } => judge_name(*entry, variant, *is_candidate, args),
         Case::Transport { commands, split, sep_arg, sep_stdin, decorate } => judge_transport(commands, *split, *sep_arg, *sep_stdin, *decorate),
+        Case::BadBytes { before, line, place, raw, after } => judge_bad_bytes(before, line, *place, *raw, after),
         Case::PrintDefault => {
             let mut obs = Obs::default();
             obs.nontrivial = true;
@@ -490,6 +560,13 @@ pub fn judge_case(c: &Case) -> Obs {
     }
 }
 
+fn bad_bytes_cases() -> impl Strategy<Value = Case> {
+    let cmd = || prop::sample::select(TRANSPORT_POOL.to_vec()).prop_map(|s| s.to_string());
+    // (the bad line is built on a command that changes state when it is accepted, or on nothing)
+    let line = prop::sample::select(vec!["", "move r1 x77", "goto x3002", "break add x3003", "step", "move data x5", "registers", "x", "eval add r1 r1 #1"]).prop_map(|s| s.to_string());
+    (prop::collection::vec(cmd(), 0..4), line, any::<u8>(), any::<u8>(), prop::collection::vec(cmd(), 0..4)).prop_map(|(before, line, place, raw, after)| Case::BadBytes { before, line, place, raw, after })
+}
+
 impl Prop for C14 {
     fn id(&self) -> &'static str {
         "C14"
@@ -499,11 +576,11 @@ impl Prop for C14 {
          Oracle RefCmd (doc comment of the integer parser, NaiveType table, help.txt): value accepted <=> documented integer in [-32768, 65535], R1 = v mod 2^16; location => PC / breakpoint list equals the resolved address; everything else => an error is reported and nothing changes; never a panic. \
          (b) every command name, alias and listed misspelling (one- and two-word forms) in 3 random letter cases: alias => transcript, output, exit and final state identical to the canonical name in a fixed scenario; misspelling => CommandError and no effect. `print` without argument = `print ^`. \
          (c) generated scripts of 1-8 commands delivered through --command, through stdin, or split at every point, with `;` or newline as separator, empty commands and surrounding blanks: stdout, stderr, exit status and final state identical to the plain delivery (in-process through the real CommandReader, plus a sample through the real binary with a pipe as stdin). \
-         Non-trivial: token with a sign/prefix and a digit; name variant; script split strictly inside. Distinct = token batch / name / (script, split)."
+         (d) scripts on standard input in which one line contains bytes that are not UTF-8 (lone / truncated / overlong / surrogate sequences at the start, in the middle or at the end of a command): no panic, and the session equals the one with an invalid textual line in its place. Non-trivial: token with a sign/prefix and a digit; name variant; script split strictly inside. Distinct = token batch / name / (script, split)."
     }
     fn assumptions(&self) -> Vec<String> {
         vec![
-            "RefCmd (DESIGN.md Appendix D); `sudo` (documented easter egg that exits) excluded; transport scripts contain no `;`/newline inside echo/eval text; only valid UTF-8".into(),
+            "RefCmd (DESIGN.md Appendix D); `sudo` (documented easter egg that exits) excluded; transport scripts contain no `;`/newline inside echo/eval text".into(),
             "transport is exercised in-process through the same CommandReader (argument first, then the redirected fd 0); the CLI spelling is sampled by C07".into(),
         ]
     }
@@ -580,6 +657,9 @@ impl Prop for C14 {
             Case::Transport { commands, split, sep_arg, sep_stdin, decorate: decorate % 255 }
         });
         drive(ctx, rep, "transport", strat, k, &mut |c: &Case| judge_case(c));
+        // lines that are not UTF-8, on standard input
+        let k = ctx.share(ctx.tier.pick(1500, 20_000));
+        drive(ctx, rep, "bad-bytes", bad_bytes_cases(), k, &mut |c: &Case| judge_case(c));
         // a sample through the real binary (decorate == 255 selects the process-level judge)
         std::env::set_var("VERIF_MAX_SHRINK", "40");
         let k = ctx.share(ctx.tier.pick(64, 1000));
@@ -601,7 +681,7 @@ impl Prop for C14 {
             let split = (split as usize * (commands.len() + 1)) >> 16;
             Case::Transport { commands, split, sep_arg, sep_stdin, decorate: decorate % 255 }
         });
-        Some(crate::fuzzmode::jv(crate::pick![3 => tokens, 1 => transport]))
+        Some(crate::fuzzmode::jv(crate::pick![6 => tokens, 2 => transport, 1 => bad_bytes_cases()]))
     }
     fn replay(&self, _ctx: &Ctx, case: &Value) -> Obs {
         match serde_json::from_value::<Case>(case.clone()) {
